@@ -20,7 +20,8 @@ var c04Specs = []famSpec{
 	{Family: "lattice", Pool: 30000, PoolQ: 6000},
 	{Family: "rectilinear", Pool: 40000, PoolQ: 4000},
 	{Family: "nested-small", Pool: 40000, PoolQ: 2000},
-	{Family: "nested", FreshQ: 3000, FreshT: 150000},
+	{Family: "nested", Pool: 150000, PoolQ: 3000},
+	{Family: "nested-large", FreshQ: 3000, FreshT: 150000},
 	{Family: "rand-mid", Pool: 30000, PoolQ: 3000},
 	{Family: "rand-wide", FreshQ: 3000, FreshT: 150000},
 }
